@@ -2,7 +2,7 @@
    asyncstdlib/builtins.py and asyncstdlib/itertools.py are written, with a denotational semantics into the
    generator calculus (Kernel/Monad.v).  harness/translate.py regenerates Gen/PylSrc.v from the current source
    on every run: one [fdef] per translated function, constructor by constructor from the Python AST.
-   Proofs/PylEquiv.v proves each generated term equal (as a world transformer) to the hand-written model that
+   Proofs/PylEquivAgg.v and Proofs/PylEquivIter.v proves each generated term equal (as a world transformer) to the hand-written model that
    all the property theorems are about.  Definitions only. *)
 From Coq Require Import List ZArith NArith Bool Arith String.
 Import ListNotations.
@@ -15,6 +15,8 @@ Inductive callee :=
 | CBool                                        (* the builtin bool, assigned by the library itself *)
 | CAdd                                         (* operator.add, the library's default reduction *)
 | CNoneFn.                                     (* None was passed *)
+
+Inductive cmp := CEq | CGt | CLe | CGe.
 
 Inductive expr :=
 | EVar (x : string)
@@ -33,7 +35,10 @@ Inductive expr :=
 | EIfExp (c a b : expr)                        (* a if c else b *)
 | ELt (a b : expr)                             (* a < b  (TypeError when unorderable) *)
 | EIsStrLike (e : expr)                        (* isinstance(e, (str, bytes, bytearray)): no such values in the domain *)
-| EOpaqueStr.                                  (* a string built for an error message only *)
+| EOpaqueStr                                   (* a string built for an error message only *)
+| EIsNone (e : expr)                           (* e is None *)
+| EIntCmp (op : cmp) (a b : expr)              (* a == b, a > b, a <= b, a >= b on integers *)
+| ESub (a b : expr) | EMod (a b : expr).       (* a - b, a % b on integers *)
 
 Inductive stmt :=
 | SSkip
@@ -48,6 +53,13 @@ Inductive stmt :=
 | SAnextOr (x it : string) (handler : stmt)    (* try: x = await anext(it)  except StopAsyncIteration: handler *)
 | SAnextDefault (x it : string)                (* x = await anext(it, default=<marker>) *)
 | SRaise (e : exn)                             (* raise TypeError(...) / ValueError(...)  [from None] *)
+| SForEnum (c x it : string) (start : expr) (body orelse : stmt)
+                                               (* async for c, x in enumerate(_borrow(it), start=K): body else: orelse *)
+| SForZipBorrowed (x y it1 it2 : string) (body : stmt)
+                                               (* async for x, y in zip(_borrow(it1), _borrow(it2)): body   (no break/return) *)
+| SForZipOwned (x star : string) (body : stmt) (* async with ScopedIter(zip( *star )) as it: async for x in it: body   (no break/return) *)
+| SSlicePrelude                                (* s = slice( *args ); start, stop, step = s.start or 0, s.stop, s.step or 1 :
+                                                  argument normalisation, performed by the caller of the model *)
 | SBreak
 | SReturn (e : option expr)
 | SUnsupported (what : string).                (* the translator met something outside the fragment *)
@@ -58,19 +70,21 @@ Record fdef := mkFn { f_name : string; f_params : list string; f_body : stmt }.
 Record env := mkEnv {
   e_vars : list (string * option val);      (* None: bound to the function's "not given" marker *)
   e_fns : list (string * callee);
-  e_its : list (string * nat)       (* iterable / iterator names -> source index *)
+  e_its : list (string * nat);      (* iterable / iterator names -> source index *)
+  e_star : list (string * list nat) (* a *iterables parameter -> the source indices *)
 }.
 Fixpoint lookup {A} (x : string) (l : list (string * A)) : option A :=
   match l with
   | [] => None
   | (y, a) :: r => if String.eqb x y then Some a else lookup x r
   end.
-Definition set_var (en : env) (x : string) (v : val) := mkEnv ((x, Some v) :: e_vars en) (e_fns en) (e_its en).
-Definition set_marker (en : env) (x : string) := mkEnv ((x, None) :: e_vars en) (e_fns en) (e_its en).
-Definition set_fn (en : env) (f : string) (c : callee) := mkEnv (e_vars en) ((f, c) :: e_fns en) (e_its en).
-Definition set_it (en : env) (x : string) (i : nat) := mkEnv (e_vars en) (e_fns en) ((x, i) :: e_its en).
+Definition set_var (en : env) (x : string) (v : val) := mkEnv ((x, Some v) :: e_vars en) (e_fns en) (e_its en) (e_star en).
+Definition set_marker (en : env) (x : string) := mkEnv ((x, None) :: e_vars en) (e_fns en) (e_its en) (e_star en).
+Definition set_fn (en : env) (f : string) (c : callee) := mkEnv (e_vars en) ((f, c) :: e_fns en) (e_its en) (e_star en).
+Definition set_it (en : env) (x : string) (i : nat) := mkEnv (e_vars en) (e_fns en) ((x, i) :: e_its en) (e_star en).
 
-Inductive arg := AVal (v : val) | AOpt (o : option val) | AFn (c : callee) | AIter (i : nat).
+Definition set_star (en : env) (x : string) (l : list nat) := mkEnv (e_vars en) (e_fns en) (e_its en) ((x, l) :: e_star en).
+Inductive arg := AVal (v : val) | AOpt (o : option val) | AFn (c : callee) | AIter (i : nat) | AIters (l : list nat).
 Fixpoint bind_args (ps : list string) (args : list arg) (en : env) : env :=
   match ps, args with
   | p :: ps', a :: args' =>
@@ -79,10 +93,11 @@ Fixpoint bind_args (ps : list string) (args : list arg) (en : env) : env :=
                           | AOpt None => set_marker en p
                           | AFn c => set_fn en p c
                           | AIter i => set_it en p i
+                          | AIters l => set_star en p l
                           end)
   | _, _ => en
   end.
-Definition empty_env := mkEnv [] [] [].
+Definition empty_env := mkEnv [] [] [] [].
 
 (* ---------- expressions ---------- *)
 Definition need {A} (o : option A) : M A :=
@@ -132,6 +147,17 @@ Fixpoint eval (en : env) (e : expr) : M val :=
   | ELt a b => x <- eval en a ;; y <- eval en b ;; r <- lift_lt (py_lt x y) ;; ret (VBool r)
   | EIsStrLike a => v <- eval en a ;; ret (VBool false)
   | EOpaqueStr => ret VNone
+  | EIsNone a => v <- eval en a ;; ret (VBool (match v with VNone => true | _ => false end))
+  | EIntCmp op a b =>
+      x <- eval en a ;; y <- eval en b ;;
+      match x, y with
+      | VInt p, VInt q => ret (VBool (match op with CEq => Z.eqb p q | CGt => Z.ltb q p | CLe => Z.leb p q | CGe => Z.leb q p end))
+      | _, _ => raise XTypeError
+      end
+  | ESub a b => x <- eval en a ;; y <- eval en b ;;
+                match x, y with VInt p, VInt q => ret (VInt (p - q)) | _, _ => raise XTypeError end
+  | EMod a b => x <- eval en a ;; y <- eval en b ;;
+                match x, y with VInt p, VInt q => ret (VInt (Z.modulo p q)) | _, _ => raise XTypeError end
   end.
 
 (* ---------- statements ---------- *)
@@ -181,6 +207,39 @@ Fixpoint exec (s : stmt) (en : env) (yield : val -> M unit) : M (env * sig) :=
       | None => ret (set_marker en x, Normal)
       end
   | SRaise e => raise e
+  | SForEnum c x it start body orelse =>
+      i <- need (lookup it (e_its en)) ;;
+      k <- eval en start ;;
+      match k with
+      | VInt k0 =>
+          r <- loop_src i (fun (st : env * sig * Z) item =>
+                 r <- exec body (set_var (set_var (fst (fst st)) c (VInt (snd st))) x item) yield ;;
+                 match snd r with
+                 | Normal => ret ((r, (snd st + 1)%Z), true)
+                 | _ => ret ((r, snd st), false)
+                 end) (en, Normal, k0) ;;
+          match snd (fst (fst r)) with
+          | Normal => exec orelse (fst (fst (fst r))) yield
+          | Brk => ret (fst (fst (fst r)), Normal)
+          | Ret v => ret (fst (fst r))
+          end
+      | _ => raise XTypeError
+      end
+  | SForZipBorrowed x y it1 it2 body =>
+      i <- need (lookup it1 (e_its en)) ;;
+      j <- need (lookup it2 (e_its en)) ;;
+      zip_inner false [i; j] (fun t =>
+        match t with
+        | VTup [a; b] => r <- exec body (set_var (set_var en x a) y b) yield ;;
+                         match snd r with Normal => ret tt | _ => raise XRuntimeError end
+        | _ => raise XValueError
+        end) ;;; ret (en, Normal)
+  | SForZipOwned x star body =>
+      ss <- need (lookup star (e_star en)) ;;
+      a_zip false ss (fun t =>
+        r <- exec body (set_var en x t) yield ;;
+        match snd r with Normal => ret tt | _ => raise XRuntimeError end) ;;; ret (en, Normal)
+  | SSlicePrelude => ret (en, Normal)
   | SBreak => ret (en, Brk)
   | SReturn None => ret (en, Ret VNone)
   | SReturn (Some e) => v <- eval en e ;; ret (en, Ret v)
@@ -198,7 +257,8 @@ Definition run_corofn (f : fdef) (args : list arg) : M val :=
 Fixpoint supported (s : stmt) : bool :=
   match s with
   | SUnsupported _ => false
-  | SSeq a b | SIf _ a b | SFor _ _ a b => supported a && supported b
+  | SSeq a b | SIf _ a b | SFor _ _ a b | SForEnum _ _ _ _ a b => supported a && supported b
+  | SForZipBorrowed _ _ _ _ a | SForZipOwned _ _ a => supported a
   | SWith _ _ a | SAnextOr _ _ a => supported a
   | _ => true
   end.
